@@ -245,6 +245,8 @@ class RP:
         e = self.expr_or(ns)
         if self.at_op('..') or self.at_op('..='):
             op = self.eat('op')
+            if self.at_op(')') or self.at_op(']') or self.at_op(',') or self.at_op(';'):
+                return ('range', op, e, None)
             hi = self.expr_or(ns)
             return ('range', op, e, hi)
         return e
@@ -276,10 +278,24 @@ class RP:
         return e
 
     def expr_cmp(self, ns):
-        e = self.expr_add(ns)
+        e = self.expr_bitor(ns)
         if self.at('op') and self.peek()[1] in ('==', '!=', '<', '>', '<=', '>='):
             op = self.eat('op')
-            e = ('bin', op, e, self.expr_add(ns))
+            e = ('bin', op, e, self.expr_bitor(ns))
+        return e
+
+    def expr_bitor(self, ns):
+        e = self.expr_bitand(ns)
+        while self.at_op('|') and not self.at_op('|', 1):
+            self.i += 1
+            e = ('bin', '|', e, self.expr_bitand(ns))
+        return e
+
+    def expr_bitand(self, ns):
+        e = self.expr_add(ns)
+        while self.at_op('&') and not self.at_op('&', 1):
+            self.i += 1
+            e = ('bin', '&', e, self.expr_add(ns))
         return e
 
     def expr_add(self, ns):
@@ -353,7 +369,19 @@ class RP:
             elif self.at_op('('):
                 e = ('call', e, self.args())
             elif self.at_op('['):
-                self.fail('indexing')
+                self.i += 1
+                if self.at_op('..'):
+                    self.i += 1
+                    idx = ('range', '..', None, None if self.at_op(']') else self.expr())
+                else:
+                    lo = self.expr_or(False)
+                    if self.at_op('..'):
+                        self.i += 1
+                        idx = ('range', '..', lo, None if self.at_op(']') else self.expr_or(False))
+                    else:
+                        idx = lo
+                self.eat('op', ']')
+                e = ('index', e, idx)
             else:
                 return e
 
@@ -518,6 +546,12 @@ class RP:
             return ('paren', e)
         if k == 'op' and v == '{':
             return self.block()
+        if k == 'op' and v == '<':
+            # `<T>::name` / `<_>::default()`
+            self.i += 1
+            self.type_list_until_gt()
+            self.eat('op', '::')
+            return ('path', ['<>'] + self.path_segments())
         if k == 'op' and v == '[':
             self.i += 1
             items = []
